@@ -160,6 +160,13 @@ impl Lift for SubWordValue {
 
             // Next we have to pull the shift amount (if any) out of the value
             let (value, shift) = SubWordValue::get_shift(value);
+
+            // The sub-word has to lie within the word it is read from. A shift that moves
+            // its start out of the word leaves nothing to read, while one that moves only
+            // its end out of the word shortens it.
+            let shifted_offset = offset.checked_add(shift).filter(|ofs| *ofs < WORD_SIZE_BITS)?;
+            let shifted_length = length.min(WORD_SIZE_BITS - shifted_offset);
+
             let value = value.clone().transform_data(insert_sub_words);
 
             let value = match value.data() {
@@ -174,8 +181,8 @@ impl Lift for SubWordValue {
             // If we find a word, we can easily construct the return data
             let payload = SVD::SubWord {
                 value,
-                offset: offset + shift,
-                size: length,
+                offset: shifted_offset,
+                size: shifted_length,
             };
 
             Some(payload)
